@@ -886,6 +886,42 @@ impl FixtureDatabase {
                 }
                 None
             }
+            Stmt::TryStar(try_stmt) => {
+                for s in &try_stmt.body {
+                    if let Some(line) = self.find_yield_in_stmt(s, line_index) {
+                        return Some(line);
+                    }
+                }
+                for handler in &try_stmt.handlers {
+                    let rustpython_parser::ast::ExceptHandler::ExceptHandler(h) = handler;
+                    for s in &h.body {
+                        if let Some(line) = self.find_yield_in_stmt(s, line_index) {
+                            return Some(line);
+                        }
+                    }
+                }
+                for s in &try_stmt.orelse {
+                    if let Some(line) = self.find_yield_in_stmt(s, line_index) {
+                        return Some(line);
+                    }
+                }
+                for s in &try_stmt.finalbody {
+                    if let Some(line) = self.find_yield_in_stmt(s, line_index) {
+                        return Some(line);
+                    }
+                }
+                None
+            }
+            Stmt::Match(match_stmt) => {
+                for case in &match_stmt.cases {
+                    for s in &case.body {
+                        if let Some(line) = self.find_yield_in_stmt(s, line_index) {
+                            return Some(line);
+                        }
+                    }
+                }
+                None
+            }
             _ => None,
         }
     }
